@@ -92,19 +92,3 @@ pub fn word_lattice(bits: u32, ks: &[u32], spaced: u32) -> Vec<u64> {
     v.retain(|w| seen.insert(*w));
     v
 }
-
-/// quick ≈ 24 words, thorough ≈ 70 words
-pub fn lattice_for(bits: u32, thorough: bool, reduced: bool) -> Vec<u64> {
-    // ks / ku: position (from the top) of the lowest bit kept by Standard (24 / 53 bits) and by
-    // Uniform (23 / 52 bits) — one below it the word no longer changes the float
-    let (ks, ku) = if bits == 32 { (24, 23) } else { (53, 52) };
-    if reduced {
-        // Alpha forms (one more draw): a smaller lattice keeps W^4 bounded
-        return if thorough { word_lattice(bits, &[1, 2, 9, ks, ku], 8) } else { word_lattice(bits, &[1, ku], 4) };
-    }
-    if thorough {
-        word_lattice(bits, &[1, 2, 3, 4, 8, 9, 12, 16, 20, 22, ks, ku, ks + 1, ku - 1, bits - 1, bits - 2, bits - 4], 33)
-    } else {
-        word_lattice(bits, &[1, 2, 9, ks, ku, bits - 1], 9)
-    }
-}
